@@ -280,11 +280,17 @@ Definition mk_reply (c : cfg) (t : rtype) (m : dmsg) (yi : ip) (b : bool) : repl
 (* ---------------------------------------------------------------- *)
 (* lease.go *)
 
+(* taken: ip is acknowledged to another client id, or tracked by the session for a MAC other
+   than the lease's (the range over h.table is existential: map order does not matter) *)
+Definition taken (s : dstate) (l : lease) (x : ip) : bool :=
+  existsb (fun v => negb (l_cid v =? l_cid l) && lstate_eqb (l_state v) SAllocated && oeqb (l_ip v) (Some x)) (tbl s)
+  || match sess_find (ss s) x with Some m' => negb (m' =? l_mac l) | None => false end.
+
 Definition findOrCreate (c : cfg) (s : dstate) (k : cid) (mc : mac) : dstate * lease :=
   let b := sess_captured (ss s) mc in
   let fresh := mkLease k SFree mc None None None b zero_time in
   match tget k (tbl s) with
-  | Some l => if lan_same c (l_net2 l) b && (l_mac l =? mc) then (s, l) else (put s fresh, fresh)
+  | Some l => if Bool.eqb (l_net2 l) b && (l_mac l =? mc) then (s, l) else (put s fresh, fresh)
   | None => (put s fresh, fresh)
   end.
 
@@ -301,11 +307,13 @@ Definition avail_req (ch : ip -> nat) (s : dstate) (k : cid) (x : ip) : bool :=
 Definition scan (ch : ip -> nat) (s : dstate) (from bc : ip) : option ip :=
   find (avail ch s) (map (fun k => from + N.of_nat k) (seq 0 (N.to_nat (bc - from)))).
 
-(* allocIPOffer, first phase: the requested address is taken when no lease of another
-   client id holds it as acknowledged address (findByIP) and the session does not track it *)
-Definition phase1 (ch : ip -> nat) (s : dstate) (l : lease) (req : option ip) : option ip :=
+(* allocIPOffer, first phase: the requested address is taken when it is a host address of the
+   lease's subnet, no lease of another client id holds it as acknowledged address (findByIP)
+   and the session does not track it *)
+Definition phase1 (c : cfg) (ch : ip -> nat) (s : dstate) (l : lease) (req : option ip) : option ip :=
   match req with
-  | Some r => if avail_req ch s (l_cid l) r then Some r else None
+  | Some r => if n_contains c (l_net2 l) r && negb (r =? n_lan c (l_net2 l)) && negb (r =? n_bcast c (l_net2 l))
+                 && avail_req ch s (l_cid l) r then Some r else None
   | None => None
   end.
 
@@ -313,7 +321,7 @@ Definition phase1 (ch : ip -> nat) (s : dstate) (l : lease) (req : option ip) : 
 Definition allocIPOffer (c : cfg) (ch : ip -> nat) (s : dstate) (l : lease) (req : option ip)
   : option ip * dstate :=
   let b := l_net2 l in
-  match phase1 ch s l req with
+  match phase1 c ch s l req with
   | Some r => (Some r, s)
   | None =>
       let bc := n_bcast c b in
@@ -347,7 +355,11 @@ Definition handleDiscover (c : cfg) (ch : ip -> nat) (now : Z) (s : dstate) (m :
   : dstate * option reply :=
   let k := getcid m in
   let '(s1, l) := findOrCreate c s k (m_chaddr m) in
-  let l1 := discover_reset now l m in
+  let l0 := discover_reset now l m in
+  let l1 := match l_offer l0 with
+            | Some x => if taken s1 l0 x then set_offer l0 None else l0
+            | None => l0
+            end in
   let s1' := put s1 l1 in
   let '(off, s2) := match l_offer l1 with
                     | Some x => (Some x, s1')
@@ -380,6 +392,7 @@ Definition handleRequest (c : cfg) (now : Z) (s : dstate) (m : dmsg) : dstate * 
   if req =? 0 then (s, None) else
   let captured := sess_captured (ss s) (m_chaddr m) in
   let '(s1, l) := findOrCreate c s k (m_chaddr m) in
+  let tk := taken s1 l req in     (* before the session learns req from this request *)
   let nak := Some (mk_reply c RNak m 0 captured) in
   let ack (s : dstate) (l : lease) :=
     let l2 := match l_state l with
@@ -397,21 +410,21 @@ Definition handleRequest (c : cfg) (now : Z) (s : dstate) (m : dmsg) : dstate * 
         let s2 := put s1 l' in
         if attack_mode c captured then (s2, nak)
         else (set_ss s2 (dhcp_update (ss s2) (m_chaddr m) (Some req)), None)
-      else if negb (l_mac l =? m_chaddr m)
+      else if lstate_eqb (l_state l) SFree || tk || negb (l_mac l =? m_chaddr m)
               || (lstate_eqb (l_state l) SDiscover
                   && (negb (oeqb (l_xid l) (Some (m_xid m))) || negb (oeqb (l_offer l) (Some req))))
               || (lstate_eqb (l_state l) SAllocated && negb (oeqb (l_ip l) (Some req)))
       then (s1, nak)
       else ack s1 l
   | Renewing =>
-      if negb (lstate_eqb (l_state l) SAllocated) || negb (oeqb (l_ip l) (Some req))
+      if negb (lstate_eqb (l_state l) SAllocated) || tk || negb (oeqb (l_ip l) (Some req))
          || negb (l_mac l =? m_chaddr m) || (l_exp l <? now)%Z
       then (s1, nak)
       else ack s1 l
   | Rebooting | Rebinding =>
       let s2 := set_ss s1 (dhcp_update (ss s1) (m_chaddr m) (Some req)) in
       if lstate_eqb (l_state l) SFree && attack_mode c captured then (s2, nak)
-      else if negb (lstate_eqb (l_state l) SAllocated) || negb (oeqb (l_ip l) (Some req))
+      else if negb (lstate_eqb (l_state l) SAllocated) || tk || negb (oeqb (l_ip l) (Some req))
               || negb (l_mac l =? m_chaddr m)
               || negb (match l_ip l with Some x => n_contains c captured x | None => false end)
       then (s2, nak)
